@@ -283,12 +283,25 @@ def run(ctx):
         ch = chunks_of(spec)
         progs = [FL.gen_program(rng, spec, ch, cols=["c", "c", "i"], wrong_type=0) for _ in range(12)]
         jobs.append((spec, progs, True))
+    # wave-3 dimensions (fixed counts per run): long text values with statistics, partition keys at integer representation
+    # boundaries, tz-aware timestamps against constants in other zones, one-sided / foreign statistics
+    for flavour, cnt, focus in (("long", 14 if quick else 100, ["ls", "ls", "ls", "i"]), ("bigpart", 14 if quick else 100, ["q", "q", "q", "i"]),
+                                ("tz", 14 if quick else 100, ["tz", "tz", "tz", "i", "p"]), ("onesided", 24 if quick else 160, None)):
+        for _ in range(cnt):
+            spec = FL.gen_dataset_w3(rng, flavour)
+            ch = chunks_of(spec)
+            cols = [c for c in focus if c in spec["cols"]] if focus else None
+            # one-sided bounds matter most for membership lists that straddle the single known bound
+            kw = {"ops": FL.OPS + ["in"] * 7 + ["not in"], "in_sizes": [1, 2, 2, 3, 3, 4]} if flavour == "onesided" else {}
+            progs = [FL.gen_program(rng, spec, ch, cols=cols, wrong_type=0, **kw) for _ in range(24 if quick else 60)]
+            jobs.append((spec, progs, True))
     results = C.pmap(run_dataset, jobs, init=_init, nproc=min(8, os.cpu_count() or 4), job_timeout=300)
 
     # -------- oracle + collect model expressions
     mexprs, mmeta = [], []
     for ji, ((spec, progs, want_model), res) in enumerate(zip(jobs, results)):
         ctx.count("dataset.scheme", spec["scheme"] + ("+parts" if spec["partition_on"] else ""))
+        ctx.count("dataset.flavour", spec.get("flavour", "random"))
         ctx.count("dataset.stats", "all" if spec["stats"] is True else ("none" if spec["stats"] is False else "some"))
         if "__crashed__" in res:
             # the interpreter died or hung while filtering: never an allowed outcome
@@ -363,9 +376,9 @@ def _has_wrong_type(spec, prog):
             k = spec["cols"][n]["kind"]
             cs = c if isinstance(c, list) else [c]
             for x in cs:
-                if k in ("str", "cat") and not isinstance(x, str):
+                if FL.text_kind(k) and not isinstance(x, (str, dict)):
                     return True
-                if k not in ("str", "cat") and isinstance(x, str):
+                if not FL.text_kind(k) and isinstance(x, str):
                     return True
     return False
 
